@@ -1,4 +1,5 @@
 import SaVerif.Lemmas.DdlRun
+import SaVerif.Lemmas.DdlCycle
 /-!
 # C14 — DDL is emitted in dependency order for any foreign-key graph
 
@@ -120,6 +121,23 @@ theorem second_sort_total (cyc : List Edge → List Nat) (tables : List Tbl)
       obtain ⟨p, _, he⟩ := hclosed x hxS
       have hm := foldl_breakEdge_snd_sub _ _ _ he
       exact foldl_breakEdge_removes hn _ _ (p, x) hm hm hxc he
+
+/-- **second_sort_total_of_exact_cycles**: the same with the natural hypothesis on
+    `find_cycles` — it reports every table that lies on a dependency cycle (C19's
+    `find_cycles_exact`, validated there by correspondence).  The step from "parent-closed
+    set" to "node on a cycle" is the pigeonhole lemma `closed_set_has_cycle`. -/
+theorem second_sort_total_of_exact_cycles (cyc : List Edge → List Nat) (tables : List Tbl)
+    (hn : (ids tables).Nodup) (hnoextra : ∀ t ∈ tables, t.extra = [])
+    (hcyc : ∀ x, OnCycle (mutable0 fltCreate tables) x → x ∈ cyc (mutable0 fltCreate tables)) :
+    ∃ s, sortTCWith cyc fltCreate [] tables = some s := by
+  apply second_sort_total cyc tables hn hnoextra
+  intro S hne hclosed
+  obtain ⟨x, hx, hon⟩ := closed_set_has_cycle hne hclosed
+  exact ⟨x, hx, hcyc x hon⟩
+
+/-- a two-table cycle: both nodes are on a cycle in the sense of `OnCycle` -/
+example : OnCycle [(1, 2), (2, 1)] 1 :=
+  Reach.tail (b := 2) (Reach.step (by decide)) (by decide)
 
 /-! ## create_all on a strict backend -/
 
